@@ -31,6 +31,19 @@ def run_rules(prop, src, tier):
         raise AnalysisError(f'no rule module for {prop}')
     chk = report.Checker(prop, src, tier)
     mod.run(chk)
+    files = [f for f in getattr(mod, 'FILES', []) if src.exists(f)]
+    if files:
+        from .core import effects
+        rid = f'{prop}-H1'
+        chk.rule(rid, 'history independence: no function on the property\'s path leaves state behind for a later call or another instance '
+                      '(module/class-level state, mutable defaults, memoising decorators), except caches whose key determines the cached value', 1)
+        scopes = {rel: effects.path_scope(chk, rel) for rel in files}
+        effects.history_rule(chk, files, rid)
+        from .core import dtypes
+        tid = f'{prop}-T1'
+        chk.rule(tid, 'element types: every buffer allocated on the property\'s path has the element kind it has on the reviewed tree '
+                      '(int/uint/float/complex and width, or "like <input>"); respelling a type is not a change', 0)
+        dtypes.element_type_rule(chk, files, tid, lambda rel: scopes[rel])
     return chk
 
 
